@@ -1,8 +1,13 @@
 /-
   C03 — JSON Schema serialization preserves the meaning of any element tree.
-  (structure theorems; the acceptance-preservation theorem is stated and proved below as it lands)
+  Structure theorems (every reference resolves) on the JSON-level model `serElem`, and the meaning clause
+  (`C03_partial_meaning`) on the schema-level model `toSchema` (StathamModel/ToSchema.lean: the same serializer with the
+  encoding step removed and `$ref`s followed; tied to the real `serialize_json` by the driver op `to_schema`).
 -/
 import StathamModel.SerJson
+import StathamModel.Lemmas.SerOk
+import StathamModel.Lemmas.CallVerdict
+import StathamModel.Lemmas.EqRefl
 import StathamModel.Tie
 namespace Statham.C03
 open Statham
@@ -130,6 +135,66 @@ theorem caller_definitions_present (root : Option Elem) (defs : List (String × 
       · exact Or.inr (dictSet_mem_keys _ _ _)
       · exact Or.inl h
     · exact Or.inr (dictSet_keeps_keys _ _ _ _ h)
+
+/-- **The property's meaning clause at full strength**: the serialized document accepts exactly the values the tree
+    accepts, for every well-formed tree. -/
+def MeaningStatement : Prop :=
+  ∀ (env : Env) (cx : PCtx) (e : Elem) (v : JVal), wfElem e = true → distinctKeys v = true →
+    ∃ ℓ : SKw → Bool, e.accepts env v = D6.valid env ℓ (toSchema e) v
+
+/-- **Proved: the meaning clause for every tree in the parser's normal form** (`NF`: at every node, the parser given
+    the node's own keywords and children builds that node — in particular every tree the parser returns and
+    serializes back unchanged) whose serialization meets the `Good` conditions of C01 (so what is inherited from
+    C01's findings is visible as a hypothesis, not hidden): for every value and every regex/format environment, if the
+    call stays inside the arithmetic domain, the tree accepts the value exactly when Draft 6 says the serialized
+    document does.  Not covered by the theorem (correspondence and oracle only): trees written in the DSL that are
+    not parser images (attribute names chosen freely, `AllOf` of one member, `Array()` without `items`), `$ref`
+    bookkeeping (the structure theorems above), caller-supplied definitions. -/
+theorem C03_partial_meaning (env : Env) (cx : PCtx) (e : Elem) (v : JVal)
+    (hn : NF cx e) (hg : Good cx (toSchema e) = true) (hv : distinctKeys v = true)
+    (hnc : e.call env (.val v) ≠ .crash) :
+    e.accepts env v = D6.valid env typeHasObject (toSchema e) v := by
+  have hrel := (ser_ok env cx e hn hg).1 v hv
+  rw [accepts_eq]
+  unfold Elem.accV
+  have hnc' : e.acc env (.val v) ≠ .crash := by
+    rw [← call_verdict]
+    intro h
+    apply hnc
+    cases hc : e.call env (.val v) <;> simp_all [Res.verdict]
+  rw [hrel.eq_of_ne_crash hnc']
+  cases D6.valid env typeHasObject (toSchema e) v <;> rfl
+
+/-! non-vacuity: a class with a required array-valued property is in normal form and its serialization is `Good` -/
+def ci0 : CharInfo := { isalnum := isAsciiAlnum, uname := fun _ => "unknown" }
+def cx0 : PCtx := { ci := ci0 }
+def eInt : Elem := Elem.leaf .integer { minimum := some (.int 1) }
+def eArr : Elem := .mk .array { itemsKind := .single, uniqueItems := true } [eInt] none none [] [] none none [] []
+def eObj : Elem := .mk (.object "A") { hasProps := true, addPropsB := false } [] none none
+  [({ name := "p", required := true, source := some "p" }, eArr)] [] none none [] []
+theorem nf_int : NF cx0 eInt := by
+  unfold eInt Elem.leaf
+  rw [NF]
+  exact ⟨⟨nofun, fun _ => rfl, trivial, trivial⟩, trivial, trivial, trivial, trivial, trivial, trivial, trivial, trivial, trivial⟩
+theorem nf_arr : NF cx0 eArr := by
+  unfold eArr
+  rw [NF]
+  exact ⟨⟨nofun, fun _ => rfl, trivial, trivial⟩, ⟨nf_int, trivial⟩, trivial, trivial, trivial, trivial, trivial, trivial, trivial, trivial⟩
+theorem nf_obj : NF cx0 eObj := by
+  unfold eObj
+  rw [NF]
+  exact ⟨⟨nofun, fun _ => rfl, trivial, trivial⟩, trivial, trivial, trivial, ⟨nf_arr, trivial⟩, trivial, trivial, trivial, trivial, trivial⟩
+theorem good_obj : Good cx0 (toSchema eObj) = true := by decide +kernel
+
+/-- why `MeaningStatement` needs the normal-form hypothesis at all is *not* a defect of the serializer: it is what
+    the proof technique covers.  Why it needs `Good`: the C01 counter-witnesses, e.g. a float `multipleOf` — the tree
+    accepts 4, the document read by Draft 6 does not. -/
+theorem counter_inherits_float_multipleOf :
+    (Elem.leaf .element { multipleOf := some (.flt 3602879701896397 36028797018963968) }).accepts
+        { re := fun _ _ => false, fmt := fun _ => none } (.num (.int 4)) = true ∧
+    (∀ b : Bool, D6.valid { re := fun _ _ => false, fmt := fun _ => none } (fun _ => b)
+        (toSchema (Elem.leaf .element { multipleOf := some (.flt 3602879701896397 36028797018963968) })) (.num (.int 4)) = false) := by
+  refine ⟨by decide +kernel, fun b => by cases b <;> decide +kernel⟩
 
 /-- `Nothing()` as the first element has no schema dictionary (finding C03-nothing-root) -/
 theorem counter_nothing_root :
